@@ -155,6 +155,7 @@ class SourceModel:
                             qual = f"{prefix}.{t.id}"
                             self.funcs[qual] = Func(qual, m.name, node.value, cls, parent)
         visit(m.tree.body, m.name, None, None)
+        m.history = {}          # name -> value nodes of its successive module-level assignments (X = ...; X = f(X))
         for node in m.tree.body:
             if isinstance(node, (ast.FunctionDef, ast.ClassDef)):
                 m.bindings[node.name] = node
@@ -162,8 +163,10 @@ class SourceModel:
                 for t in node.targets:
                     if isinstance(t, ast.Name):
                         m.bindings[t.id] = node.value
+                        m.history.setdefault(t.id, []).append(node.value)
             elif isinstance(node, ast.AnnAssign) and isinstance(node.target, ast.Name) and node.value:
                 m.bindings[node.target.id] = node.value
+                m.history.setdefault(node.target.id, []).append(node.value)
 
     # ----------------------------------------------------------------- lookups
     def module(self, name: str) -> Module:
